@@ -2720,3 +2720,100 @@ func init() {
 		}
 	})
 }
+
+// ---- an update reaches the record, not a copy of it (C14.16 / C05.16) ----
+//
+// for _, rec := range recs { rec.F = v } assigns to the loop variable, a copy. In SSA the copy is a local that does not escape;
+// a store to one of its fields after which nothing reads the local any more has no effect. The rule reports every such store in
+// the module (expected: none).
+func lostFieldStoreRule(c *Ctx, r *Result, rule string) {
+	n, bad := 0, 0
+	for _, fn := range c.LibFuncs() {
+		if fn.Blocks == nil {
+			continue
+		}
+		instrs(fn, func(in ssa.Instruction) {
+			st, ok := in.(*ssa.Store)
+			if !ok {
+				return
+			}
+			fa, ok := st.Addr.(*ssa.FieldAddr)
+			if !ok {
+				return
+			}
+			a, ok := fa.X.(*ssa.Alloc)
+			if !ok || a.Heap {
+				return
+			}
+			// the local is a copy of an element of a sequence (loaded through an IndexAddr, or a range value)
+			isCopy := false
+			for _, ref := range *a.Referrers() {
+				if s2, isS := ref.(*ssa.Store); isS && s2.Addr == ssa.Value(a) {
+					if u, isU := s2.Val.(*ssa.UnOp); isU {
+						if _, isIA := u.X.(*ssa.IndexAddr); isIA {
+							isCopy = true
+						}
+					}
+					if _, isEx := s2.Val.(*ssa.Extract); isEx {
+						isCopy = true
+					}
+				}
+			}
+			if !isCopy {
+				return
+			}
+			n++
+			// is the local read after the store?
+			read := false
+			var uses func(v ssa.Value)
+			uses = func(v ssa.Value) {
+				for _, ref := range *v.Referrers() {
+					if read {
+						return
+					}
+					switch x := ref.(type) {
+					case *ssa.Store:
+						if x.Addr == v {
+							continue // another store into it
+						}
+						if canReach(st, x) && x != st {
+							read = true // the address or value escapes
+						}
+					case *ssa.FieldAddr:
+						uses(x)
+					case *ssa.IndexAddr:
+						uses(x)
+					case *ssa.DebugRef:
+					default:
+						if ri, isI := ref.(ssa.Instruction); isI && canReach(st, ri) && ri != ssa.Instruction(st) {
+							read = true
+						}
+					}
+				}
+			}
+			uses(a)
+			if !read {
+				bad++
+				fld, _ := fieldOfAddr(fa)
+				name := "?"
+				if fld != nil {
+					name = fld.Name()
+				}
+				r.Viol(rule, fmt.Sprintf("%s#store-to-%s-of-a-copy-%d", c.Name(fn), name, bad), c.InstrPos(st), "the field is assigned in a local copy of a sequence element (a range value) that nothing reads afterwards: the element itself is unchanged")
+			}
+		})
+	}
+	if bad == 0 {
+		r.Hold(rule, "module#no-field-store-into-a-dead-copy", "", fmt.Sprintf("%d field stores into local copies of sequence elements examined; each copy is read again after the store", n))
+	}
+}
+
+func init() {
+	txt := "an update reaches the record, not a copy of it: no field is assigned in a non-escaping local copy of a sequence element (the value variable of a range loop) that nothing reads afterwards (for _, record := range bt.records { record.HeapID = id } leaves the name index pointing at the heap object that was just removed)"
+	registry["C14"].Meta.Rules["C14.16"] = txt
+	registry["C14"].Rules = append(registry["C14"].Rules, func(c *Ctx, r *Result) { lostFieldStoreRule(c, r, "C14.16") })
+	registry["C05"].Meta.Rules["C05.16"] = txt + " (shared with C14.16)"
+	registry["C05"].Rules = append(registry["C05"].Rules, func(c *Ctx, r *Result) { lostFieldStoreRule(c, r, "C05.16") })
+	registry["C05"].Meta.Rules["C05.15"] = registry["C01"].Meta.Rules["C01.6"] + " (shared with C01.6)"
+	registry["C05"].Rules = append(registry["C05"].Rules, func(c *Ctx, r *Result) { aliasRule(c, r, "C01", c01slotCopies, "C01.6", "C05.15") })
+}
